@@ -788,9 +788,10 @@ func main() {
 		"real_components":     spec.Real,
 		"stubbed_components":  spec.Stub,
 		"workers":             W,
-		"violation_reports":   reports,
+		"violation_reports":   orEmpty(reports),
+		"wiring_drift":        wiringDrift(),
 		"race_tier":           raceInfo,
-		"known_findings_hit":  knownHit,
+		"known_findings_hit":  orEmptyS(knownHit),
 		"technique":           "deterministic simulation: seeded tape -> operation/schedule/fault sequence, oracle evaluated per step, delta-debugged replay files",
 	}
 	if spec.Assumptions == nil {
@@ -1014,4 +1015,53 @@ func harnessFrames(stack []string) bool {
 		return strings.HasPrefix(t, "verif/sim/")
 	}
 	return false
+}
+
+func orEmpty(v []map[string]any) []map[string]any {
+	if v == nil {
+		return []map[string]any{}
+	}
+	return v
+}
+
+func orEmptyS(v []string) []string {
+	if v == nil {
+		return []string{}
+	}
+	return v
+}
+
+// wiringDrift: the four main() functions cannot be imported, so verif/sim/sa/engines.go repeats their
+// engine wiring. This lists the fragments of that wiring that are no longer found in cmd/*/main.go
+// (information for the reader of the evidence; it never changes a verdict).
+func wiringDrift() []string {
+	want := map[string][]string{
+		"cmd/morlock/main.go":   {"search.AlphaBeta{", "search.Leaf{Eval: eval.Material{}}", "search.NewMinDepthTranspositionTable(1)"},
+		"cmd/turochamp/main.go": {"search.Quiescence{", "turochamp.ConsiderableMovesOnly", "search.Leaf{Eval: turochamp.Eval{}}", `flag.Uint("ply", 2`, `flag.Uint("noise", 10`},
+		"cmd/sargon/main.go":    {"sargon.Hook{", "sargon.SkipUnderPromotions", "sargon.OnePlyIfChecked{", "search.Leaf{Eval: points}", "sargon.NewBook()", `flag.Uint("ply", 1`},
+		"cmd/bernstein/main.go": {"bernstein.PlausibleMoveTable{Limit: *branch}.Explore", "bernstein.Eval{Factor: *material}", "bernstein.NewBook()", `flag.Uint("ply", 4`, `flag.Int("branch", 7`, `flag.Int("material", 20`},
+	}
+	repo := os.Getenv("VERIF_REPO")
+	if repo == "" {
+		repo = "/repo"
+	}
+	drift := []string{}
+	var files []string
+	for f := range want {
+		files = append(files, f)
+	}
+	sort.Strings(files)
+	for _, f := range files {
+		b, err := os.ReadFile(filepath.Join(repo, f))
+		if err != nil {
+			drift = append(drift, f+": unreadable")
+			continue
+		}
+		for _, frag := range want[f] {
+			if !strings.Contains(string(b), frag) {
+				drift = append(drift, f+": no longer contains "+frag)
+			}
+		}
+	}
+	return drift
 }
